@@ -604,6 +604,17 @@ def r16_symbol_table_registration(chk, rule='C03.R16'):
         if tag == 'typeDeclaration':
             chk.ob(rule, key + '/registers-the-declared-symbol', len(own) == 1, where(o.mod, fn),
                    '%d registrations of the declared symbol' % len(own))
+            # on every path on which the declaration and its parent type exist (a SEQUENCE has none) the type is
+            # registered: no other condition can leave a declared type out of the document
+            dvar = un[1] if len(un) > 1 else None
+            pv = [a.id for s in walk_no_nested(fn) if isinstance(s, ast.Assign) and isinstance(s.targets[0], ast.Tuple)
+                  and dvar and _key_is(s.value, dvar) for a in s.targets[0].elts if isinstance(a, ast.Name)]
+            if own and dvar and pv:
+                rnodes = set(cfg.node_of(common.stmt_of(r)) for r in own)
+                seen_ = common.reach_under(cfg, [cfg.entry], {dvar: True, pv[0]: True}, avoid=rnodes)
+                chk.ob(rule, key + '/registered-whenever-it-has-a-parent-type', cfg.exit not in seen_, where(o.mod, fn),
+                       'a path leaves the handler without registering the declared type although `%s` and `%s` hold: '
+                       'the type is missing from the symbol table and so from the document' % (dvar, pv[0]))
         else:
             rnodes = set(cfg.node_of(common.stmt_of(r)) for r in own)
             at_least = bool(rnodes) and cfg.exit not in cfg.reach([cfg.entry], avoid=rnodes, skip_labels=('exc',))
